@@ -227,8 +227,10 @@ def build_deep(ch, with_options=True):
     level-0 container"""
     d = HDeck('c05 deep nesting')
     depth = ch.choose('levels', [4, 8, 11, 12, 16], free=True)
-    tr = ch.choose('level-transformation', ['none', 'shift', 'shift-number'], free=True)
+    tr = ch.choose('level-transformation', ['none', 'shift', 'shift-number', 'rot-odd', 'rot-even'], free=True)
     reuse = ch.choose('second-container', [False, True], free=True)
+    if tr.startswith('rot') and depth > 4:
+        ch.reject('rotated levels: 4 levels only (the cost grows quickly with the number of distinct planes)')
     opts = []
     if with_options:
         opts = ch.choose('options', [[], ['--max-inline-score', '0'], ['--always-inline-filling'],
@@ -244,6 +246,11 @@ def build_deep(ch, with_options=True):
         if tr == 'none':
             return None
         m = refsem.Motion((0.1 if k % 2 else -0.1, 0.0, 0.25 if k % 3 == 0 else 0.0))
+        if tr in ('rot-odd', 'rot-even'):
+            # rotations at every other level, pure shifts in between: the two do not commute
+            if k % 2 == (1 if tr == 'rot-odd' else 0):
+                return Tr(refsem.Motion((0.1, -0.2, 0.0), (RZ30 if k % 4 < 2 else RX90).T), 'inline')
+            return Tr(refsem.Motion((0.3, 0.2, -0.1)), 'inline3')
         if tr == 'shift-number':
             d.trcards[50 + k] = (m, False)
             return Tr(m, 'number', 50 + k)
